@@ -3,7 +3,8 @@
 
 Emits ``ReqBody.lean``: the guard around the health exemption, the exemption test, the comparison operators and the
 sentinel of the wire cap, the Content-Encoding normalisation, the position of the identity pass-through, which Falcon
-exception (→ HTTP status, evaluated from the installed falcon) each refusal raises, the order of the `except` clauses
+HTTP status each refusal answers with (a raised Falcon error, evaluated from the installed falcon, or
+`_reject_request(resp, exc, HTTPStatus.X)` which writes an Arrow error body and sets `resp.complete`), the order of the `except` clauses
 around the decoder, that the decoded cap is `max_request_bytes`, that the wire cap runs before decoding, and the
 precedence of `decompressed_stream` / `capped_request_body` / `bounded_stream` in `_get_request_stream`.
 """
@@ -64,6 +65,32 @@ def _raised_falcon(node: ast.AST) -> str | None:
     return None
 
 
+def _refusal_status(node: ast.AST) -> int | None:
+    """HTTP status with which `node` refuses the request: `raise falcon.HTTPxxx(...)` (status read from the installed
+    falcon) or `_reject_request(resp, <exc>, HTTPStatus.NAME)` (Arrow error body + `resp.complete`)."""
+    from http import HTTPStatus
+
+    name = _raised_falcon(node)
+    if name is not None:
+        return _status_of(name)
+    for n in ast.walk(node):
+        if isinstance(n, ast.Call) and isinstance(n.func, ast.Name) and n.func.id == "_reject_request" and len(n.args) == 3:
+            a = n.args[2]
+            if isinstance(a, ast.Attribute) and isinstance(a.value, ast.Name) and a.value.id == "HTTPStatus" and ast.unparse(n.args[0]) == "resp":
+                return int(HTTPStatus[a.attr].value)
+    return None
+
+
+def _reject_completes(tree: ast.Module) -> bool:
+    """`_reject_request` writes the error response and sets `resp.complete = True` (Falcon then skips the remaining
+    process_request hooks, routing and the responder).  True also when the helper does not exist (refusals raise)."""
+    for n in tree.body:
+        if isinstance(n, ast.FunctionDef) and n.name == "_reject_request":
+            src = ast.unparse(n)
+            return "_set_error_response(resp, exc, status_code=status_code)" in src and "resp.complete = True" in src
+    return True
+
+
 def _b(x: bool) -> str:
     return "true" if x else "false"
 
@@ -99,18 +126,28 @@ def emit() -> dict[str, str]:
     if exempt_test is None:
         raise Shape("max-bytes: exemption loop not found")
     src = ast.unparse(pr)
-    m = re.search(r"if cl is not None and cl (>|>=) self\._max_bytes:\n\s+self\._raise_too_large\(cl\)", src)
+    refuse = r"(?:self\._raise_too_large\(%s\)|self\._reject_too_large\(resp, %s\)\n\s+return)"
+    m = re.search(r"if cl is not None and cl (>|>=) self\._max_bytes:\n\s+" + refuse % ("cl", "cl"), src)
     if not m:
         raise Shape("max-bytes: Content-Length guard not recognised")
     cl_cmp = {">": "Gt", ">=": "GtE"}[m.group(1)]
-    m = re.search(r"if cl is None:\n\s+body = req\.bounded_stream\.read\(self\._max_bytes(?: \+ (\d+))?\)\n\s+if len\(body\) (>|>=) self\._max_bytes:\n\s+self\._raise_too_large\(len\(body\)\)\n\s+req\.context\.capped_request_body = body", src)
+    m = re.search(r"if cl is None:\n\s+body = req\.bounded_stream\.read\(self\._max_bytes(?: \+ (\d+))?\)\n\s+if len\(body\) (>|>=) self\._max_bytes:\n\s+"
+                  + refuse % (r"len\(body\)", r"len\(body\)") + r"\n\s+req\.context\.capped_request_body = body", src)
     if not m:
         raise Shape("max-bytes: chunked branch not recognised")
     read_extra = int(m.group(1) or 0)
     body_cmp = {">": "Gt", ">=": "GtE"}[m.group(2)]
-    too_large = _raised_falcon(_method(mw, "_MaxRequestBytesMiddleware", "_raise_too_large"))
-    if too_large is None:
-        raise Shape("max-bytes: _raise_too_large raises no falcon error")
+    too_large_status = None
+    for helper in ("_raise_too_large", "_reject_too_large"):
+        try:
+            too_large_status = _refusal_status(_method(mw, "_MaxRequestBytesMiddleware", helper))
+        except Shape:
+            continue
+        if too_large_status is not None:
+            break
+    if too_large_status is None:
+        raise Shape("max-bytes: the too-large helper refuses with no recognisable status")
+    reject_completes = _reject_completes(mw)
 
     # ---- _CompressionMiddleware.process_request ---------------------------------------------------------------
     cp = _method(mw, "_CompressionMiddleware", "process_request")
@@ -136,7 +173,7 @@ def emit() -> dict[str, str]:
             t = ast.unparse(st.test)
             if t == "req_enc is None":
                 order.append("unknown")
-                unknown_exc = _raised_falcon(st)
+                unknown_exc = _refusal_status(st)
             elif t == "req_enc is Encoding.IDENTITY":
                 if len(st.body) == 1 and isinstance(st.body[0], ast.Return) and st.body[0].value is None:
                     order.append("identity_return")
@@ -144,16 +181,16 @@ def emit() -> dict[str, str]:
                     raise Shape("compression: identity branch does something other than return")
             elif t == "req_enc not in self._decode":
                 order.append("disabled")
-                disabled_exc = _raised_falcon(st)
+                disabled_exc = _refusal_status(st)
         elif isinstance(st, ast.Try):
             order.append("decode")
             for h in st.handlers:
                 hn = ast.unparse(h.type) if h.type is not None else "BaseException"
                 handler_order.append(hn)
                 if hn == "DecompressionLimitExceeded":
-                    limit_exc = _raised_falcon(h)
+                    limit_exc = _refusal_status(h)
                 elif hn == "Exception":
-                    other_exc = _raised_falcon(h)
+                    other_exc = _refusal_status(h)
             tsrc = ast.unparse(st)
             mm = re.search(r"_decompress_with_encoding\(req_enc, compressed, max_output_size=([\w\.]+)\)", tsrc)
             cap_arg = mm.group(1) if mm else None
@@ -161,6 +198,10 @@ def emit() -> dict[str, str]:
                 raise Shape("compression: source of the compressed bytes not recognised")
     if None in (unknown_exc, disabled_exc, limit_exc, other_exc):
         raise Shape(f"compression: refusal classes not recognised ({unknown_exc}, {disabled_exc}, {limit_exc}, {other_exc})")
+    # a handler that answers through `_reject_request` does not raise: nothing may run after the `try` in this hook
+    decode_is_last = isinstance(cp.body[-1], ast.Try)
+    if not decode_is_last:
+        raise Shape("compression: statements follow the decode `try` (a non-raising refusal would fall through)")
     if cap_arg != "self._max_decompressed_bytes":
         raise Shape(f"compression: decoder cap argument {cap_arg!r}")
     identity_pass = "identity_return" in order and "disabled" in order and order.index("identity_return") < order.index("disabled") \
@@ -198,20 +239,23 @@ def contentLengthCmp : String := "{cl_cmp}"
 def chunkedReadExtra : Nat := {read_extra}
 /-- `len(body) <op> self._max_bytes` -/
 def chunkedCmp : String := "{body_cmp}"
-/-- HTTP status of `_raise_too_large` (falcon.{too_large}) -/
-def wireTooLargeStatus : Nat := {_status_of(str(too_large))}
+/-- HTTP status with which the wire cap refuses (falcon error raised, or `_reject_request(…, HTTPStatus.…)`) -/
+def wireTooLargeStatus : Nat := {too_large_status}
+/-- a refusal from `process_request` ends the request: either it raises, or `_reject_request` sets `resp.complete = True`
+(Falcon skips the remaining hooks, routing and the responder) and the hook returns right after it -/
+def refusalEndsRequest : Bool := {_b(reject_completes)}
 
 /-- `(req.get_header("Content-Encoding") or "").strip().lower()` -/
 def ceNormalise : String := "{normalise}"
-/-- unknown coding → falcon.{unknown_exc}; known but not in `_decode` → falcon.{disabled_exc} -/
-def unknownStatus : Nat := {_status_of(str(unknown_exc))}
-def disabledStatus : Nat := {_status_of(str(disabled_exc))}
+/-- status for an unknown coding; for a known coding that is not in `_decode` -/
+def unknownStatus : Nat := {unknown_exc}
+def disabledStatus : Nat := {disabled_exc}
 /-- `if req_enc is Encoding.IDENTITY: return` sits after the unknown-coding refusal and before the `_decode` test -/
 def identityPassThrough : Bool := {_b(identity_pass)}
-/-- `except DecompressionLimitExceeded` (→ falcon.{limit_exc}) precedes `except Exception` (→ falcon.{other_exc}) -/
+/-- `except DecompressionLimitExceeded` precedes `except Exception`; the status each answers with -/
 def limitHandlerFirst : Bool := {_b(limit_first)}
-def decodedTooLargeStatus : Nat := {_status_of(str(limit_exc))}
-def undecodableStatus : Nat := {_status_of(str(other_exc))}
+def decodedTooLargeStatus : Nat := {limit_exc}
+def undecodableStatus : Nat := {other_exc}
 
 /-- `make_wsgi_app`: `max_decompressed_bytes = max_request_bytes`; the wire cap is appended before the compression middleware -/
 def decodedCapIsRequestCap : Bool := {_b(decoded_cap_is_request_cap)}
